@@ -155,10 +155,12 @@ impl LinkFlowState<role::SenderMarker> {
         );
 
         if let Some(link_credit_rcv) = flow.link_credit {
-            let link_credit = delivery_count_rcv
-                .saturating_add(link_credit_rcv)
-                .saturating_sub(state.delivery_count);
-            state.link_credit = link_credit;
+            // Delivery counts are RFC-1982 serial numbers: the deliveries the
+            // receiver has not seen yet are counted modulo 2^32 so that the result
+            // stays correct when the delivery-count wraps around.
+            let unseen = state.delivery_count.wrapping_sub(delivery_count_rcv);
+            let unseen = if unseen > i32::MAX as u32 { 0 } else { unseen };
+            state.link_credit = link_credit_rcv.saturating_sub(unseen);
         }
 
         // available
